@@ -1481,3 +1481,54 @@ func countWithCallees(base func(ssa.Instruction) int, depth int) func(ssa.Instru
 	}
 	return ev
 }
+
+// ---------------------------------------------------------------- lock re-entry
+
+// lockClass names the mutex a lock operation addresses by the struct type that holds it and the field, so that the
+// same mutex can be recognised across functions (the access path differs between caller and callee).
+func lockClass(c *Ctx, call *ssa.CallCommon) string {
+	if len(call.Args) == 0 {
+		return ""
+	}
+	a := call.Args[0]
+	if fa, ok := a.(*ssa.FieldAddr); ok {
+		return typeName(deref(fa.X.Type())) + "." + fieldName(deref(fa.X.Type()), fa.Field)
+	}
+	return c.Expr(a)
+}
+
+type lockAcq struct {
+	Class, Mode string
+	At          ssa.Instruction
+	Via         string
+}
+
+// mayAcquire: mutex classes fn acquires itself or through statically resolved same-module callees (not `go`), to depth.
+func (c *Ctx) mayAcquire(fn *ssa.Function, depth int, seen map[*ssa.Function]bool) []lockAcq {
+	if fn == nil || fn.Blocks == nil || seen[fn] {
+		return nil
+	}
+	seen[fn] = true
+	var out []lockAcq
+	eachInstr(fn, func(i ssa.Instruction) {
+		call, ok := i.(*ssa.Call)
+		if !ok {
+			return
+		}
+		if op, ok := lockOps[calleeName(&call.Call)]; ok {
+			if op[0] == '+' {
+				out = append(out, lockAcq{Class: lockClass(c, &call.Call), Mode: op[1:], At: i, Via: funcName(fn)})
+			}
+			return
+		}
+		if depth > 0 {
+			if g := staticCallee(&call.Call); g != nil && g.Pkg != nil && c.inModule(g) {
+				for _, a := range c.mayAcquire(g, depth-1, seen) {
+					a.Via = funcName(fn) + " → " + a.Via
+					out = append(out, a)
+				}
+			}
+		}
+	})
+	return out
+}
